@@ -22,6 +22,11 @@ func genC18(r *Rng, tier string, idx int) *Plan {
 		// mixed stores, and the Redis server of one filter refuses connections while the service starts
 		topo = "redis-unreachable-at-start-up"
 	}
+	if idx%12 == 3 {
+		// every filter discovers its provider and leaves the logout redirect to the discovered end-session endpoint;
+		// the common settings (the logout path among them) sit in default_oidc_config
+		topo = "discovered-logout"
+	}
 	if topo == "tenants-of-one-provider" {
 		// the filters use different tenants (policies) of ONE provider host: same discovery path, selected by query
 		for i := range p.Spec.IdPs {
@@ -47,6 +52,11 @@ func genC18(r *Rng, tier string, idx int) *Plan {
 		case "same-server-different-db":
 			// one Redis server, separate logical databases: separate keyspaces, separate stores
 			f.Store = []string{"redis", "redisdb1", "redis2"}[i]
+		case "discovered-logout":
+			f.Store = []string{"memory", "redis", "memory"}[i]
+			f.Discovery = true
+			f.Logout = &LogoutCfg{Path: "/logout"}
+			p.Spec.UseOverride = true
 		case "redis-unreachable-at-start-up":
 			f.Store = []string{"memory", "redis2", "memory"}[i]
 			p.Spec.RedisDownAtBoot = "redis2"
@@ -63,6 +73,10 @@ func genC18(r *Rng, tier string, idx int) *Plan {
 		k.IDTokenTTL, k.ExpiresIn = 400*86400, 3600
 		k.OmitExpiresIn = true // tokens stay fresh: timeouts are the session's, not the tokens'
 		k.Refresh = []string{"none", "static"}[r.Intn(2)]
+	}
+	if r.Chance(0.15) {
+		// one OIDC client registered for two chains that differ in everything else
+		p.Spec.Filters[1].ClientID = p.Spec.Filters[0].ClientID
 	}
 	p.Mode = topo
 	id := 0
@@ -106,6 +120,12 @@ func genC18(r *Rng, tier string, idx int) *Plan {
 		// a refresh at one filter right after a code exchange at another (whatever an exchange leaves behind in the
 		// process must not reach the other filter's provider)
 		p.Ops = append(p.Ops, Op{ID: nid(), Kind: "refresh-after-other-login", B: 20, F: b, D: a, Path: t})
+	}
+	if topo == "discovered-logout" {
+		// each filter has served requests; then a browser logs out at each of them, in both orders
+		for _, fi := range []int{b, a} {
+			p.Ops = append(p.Ops, Op{ID: nid(), Kind: "nav", B: 30 + fi, F: fi, Path: t}, Op{ID: nid(), Kind: "logout", B: 30 + fi, F: fi})
+		}
 	}
 	// per-filter limits: probe each filter's own session on both sides of its own limits
 	for i := 0; i < nf; i++ {
